@@ -88,10 +88,14 @@ def make_jobs(ctx):
     for dt in dts:
         for lo in range(0, 65536, step):
             jobs.append([(16, d, dt, None) for d in range(lo, lo + step)])
-    # 24-bit: all upper halves x low bytes, no map
-    lows = [0, 1, 0xFF, rng.randrange(256)]
-    for lo in range(0, 65536, 4096):
-        jobs.append([(24, (up << 8) | low, 0, None) for up in range(lo, lo + 4096) for low in lows])
+    # 24-bit: all upper halves x low bytes, no map (thorough: ALL 2^24 frames)
+    if ctx.thorough:
+        for hi in range(256):
+            jobs.append([(24, (hi << 16) | lo, 0, None) for lo in range(65536)])
+    else:
+        lows = [0, 1, 0xFF, rng.randrange(256)]
+        for lo in range(0, 65536, 4096):
+            jobs.append([(24, (up << 8) | low, 0, None) for up in range(lo, lo + 4096) for low in lows])
     # device/instance-scheme event frames under maps: bit23=0, bit16=0, bit15=1
     n_ev = 400000 if ctx.thorough else 60000
     types = list(range(0, 32)) + [32, 99, 255, 1000]
@@ -145,6 +149,8 @@ def correspond(ctx, corr):
         for l, e, o in vio:
             corr.violate("decode:" + l.split()[1], l, e, o)
     corr.exhaustive["decode 16-bit x %d device types" % len(dts)] = True
+    if ctx.thorough:
+        corr.exhaustive["decode all 2^24 24-bit frames without a map"] = True
     # ---- purity: decode a subset again in shuffled order, interleaved with constructions ----
     from dali import command
     from dali.frame import ForwardFrame
